@@ -79,7 +79,37 @@ fn bound_relation(ch: &mut Choices, case: &mut Case) -> Result<(), String> {
         let exact = first_change_after(&g.oh, t, 1100).map_err(|p| format!("`{}`: schedule_at panicked: {p}", g.text))?;
         let day = Duration::days(1);
         let minute = Duration::minutes(1);
-        let bound = match (exact, ch.weighted(&[60, 40])) {
+        // whole-day distances from the *date* of t to a later midnight (the day of the exact change, the next
+        // first of a month, the next New Year): the bound then coincides with a jump of the iterator between
+        // days, whatever the time of day of t (S-C16-g is wrong only when the two are equal to the second)
+        let day_aligned = |ch: &mut Choices, target: chrono::NaiveDate| {
+            let jitter = match ch.draw(6) {
+                0 | 1 | 2 => Duration::zero(),
+                3 => Duration::seconds(1),
+                4 => -Duration::seconds(1),
+                _ => Duration::days(ch.int(-1, 1)),
+            };
+            (target - t.date()) + jitter
+        };
+        let next_month_first = {
+            let d = t.date();
+            let (y, m) = if chrono::Datelike::month(&d) == 12 { (chrono::Datelike::year(&d) + 1, 1) } else { (chrono::Datelike::year(&d), chrono::Datelike::month(&d) + 1) };
+            chrono::NaiveDate::from_ymd_opt(y, m, 1)
+        };
+        let next_new_year = chrono::NaiveDate::from_ymd_opt(chrono::Datelike::year(&t.date()) + 1, 1, 1);
+        let bound = match (exact, ch.weighted(&[50, 30, 20])) {
+            (Scan::Change(e), 2) => {
+                case.label("bound_aligned_on_whole_days");
+                day_aligned(ch, e.date())
+            }
+            (_, 2) => {
+                case.label("bound_aligned_on_whole_days");
+                match (ch.chance(50), next_month_first, next_new_year) {
+                    (true, Some(d), _) | (false, None, Some(d)) => day_aligned(ch, d),
+                    (false, _, Some(d)) => day_aligned(ch, d),
+                    _ => day,
+                }
+            }
             (Scan::Change(e), 0) => {
                 let dist = e - t;
                 match ch.draw(8) {
@@ -115,7 +145,7 @@ pub fn property() -> Property {
         id: "C16",
         subs: vec![SubCheck {
             name: "bound_relation",
-            rule: "generated expression x calendars x 3 (instant, bound B): B is placed at the distance of the exact next change, +-1 min, +24 h, +24 h +-1 min, or drawn log-uniformly from 1 day to 60 years; the exact answer comes from a forward scan of the daily schedules reaching 4 days beyond t+B; with the bound: state equal, next_change in {exact, none}, = exact if exact - t <= B - 24 h, = none if exact - t > B or there is no change; non-trivial = exact - t within 2 days of B or of B - 24 h",
+            rule: "generated expression x calendars x 3 (instant, bound B): B is placed at the distance of the exact next change, +-1 min, +24 h, +24 h +-1 min, or at the whole number of days between the date of the instant and the day of the exact change / the next first of a month / the next New Year (+-1 s, +-1 day), or drawn log-uniformly from 1 day to 60 years; the exact answer comes from a forward scan of the daily schedules reaching 4 days beyond t+B; with the bound: state equal, next_change in {exact, none}, = exact if exact - t <= B - 24 h, = none if exact - t > B or there is no change; non-trivial = exact - t within 2 days of B or of B - 24 h",
             f: bound_relation,
             text_f: None,
             cases_quick: 40_000,
